@@ -120,6 +120,7 @@ void sc_lock(void* m) {
         point(SC_K_BLOCKED, m);   /* self is not enabled: somebody else is chosen (or deadlock) */
     }
     mtx_owner[i] = self;
+    point(SC_K_YIELD, m);   /* a scheduling point inside the critical section: others may run (and block on m) while it is held */
 }
 void sc_unlock(void* m) {
     if (my_tid < 0) return;
